@@ -171,7 +171,7 @@ int main(int argc, char** argv)
     }
     catch(const sbe_error& e)
     {
-        reporter.error(e.what());
+        reporter.error("{}", e.what());
         return 1;
     }
 
